@@ -1037,6 +1037,7 @@ func ruleGrow(r *Report) {
 // commitUpdates: C01.replay, C03.twopass
 
 func ruleCommitUpdates(r *Report) {
+	defer ruleBufferLoopNoExit(r)
 	h := r.Rule("C03.twopass", "P", "commitUpdates, per non-empty buffer of a known column: the column itself is applied for the block being committed first; then — in a fresh pass over the same buffer and block — every computed column (cols[1:]); the wrapper rewinds the reader before each Apply", 5)
 	cu := r.Anchor("(*column.Txn).commitUpdates")
 	if cu == nil {
@@ -1171,6 +1172,13 @@ func skipConditions(cu *ssa.Function) (bool, string) {
 		}
 		if ex, ok := c.(*ssa.Extract); ok && ex.Index == 1 {
 			if call, ok := ex.Tuple.(*ssa.Call); ok && calleeIs(&call.Call, "(*column.columns).LoadWithIndex") {
+				return true
+			}
+		}
+		// the verdict of a helper of the loop (`if txn.commitBuffer(chunk, u) { updated = true }`): the
+		// helper's own conditions are visited with the loop's
+		if call, ok := c.(*ssa.Call); ok {
+			if sc := call.Call.StaticCallee(); sc != nil && isHelper(sc) {
 				return true
 			}
 		}
@@ -1458,6 +1466,7 @@ func ruleBackfill(r *Report) {
 
 // ruleReplayOrder: C03.order / KF4
 func ruleReplayOrder(r *Report) {
+	defer ruleRangeHeaderSnapshot(r)
 	h := r.Rule("C03.order", "who-may-call", "no commit.Reader method appends to the buffer it is replaying: an operation appended at the end is seen by later passes (computed columns, stream consumers, triggers) after operations the transaction issued later for the same row", 10)
 	appenders := map[string]bool{}
 	for fn := range r.P.modFunc {
